@@ -27,6 +27,8 @@ pub struct Cfg {
     pub trkz: bool,
     /// programs may read the registered constants of the harness runtime (`host::host_consts`)
     pub host_consts: bool,
+    /// each registered constant is visible with probability host_consts_in_3 / 3
+    pub host_consts_in_3: u64,
     /// script constants may own drop-tracked values (only the differential families, whose
     /// ledger keeps what compilation created as a baseline, switch this on)
     pub trk_consts: bool,
@@ -80,6 +82,7 @@ impl Cfg {
             trk: false,
             trkz: false,
             host_consts: true,
+            host_consts_in_3: 1,
             trk_consts: false,
             fns: (1, 5),
             max_depth: 5,
@@ -109,6 +112,7 @@ impl Cfg {
             trk: true,
             trkz: true,
             host_consts: true,
+            host_consts_in_3: 1,
             trk_consts: false,
             fns: (1, 4),
             max_depth: 4,
@@ -134,6 +138,7 @@ impl Cfg {
             trk: true,
             trkz: true,
             host_consts: true,
+            host_consts_in_3: 1,
             trk_consts: false,
             fns: (1, 4),
             max_depth: 4,
@@ -1977,7 +1982,7 @@ impl Gen {
                     Ty::Int(i) => self.cfg.ints.contains(i),
                     _ => true,
                 };
-                if ok && self.rng.chance(1, 3) {
+                if ok && self.rng.chance(self.cfg.host_consts_in_3, 3) {
                     const_infos.push((n.to_string(), t));
                     self.tag("decl:registered-constant-visible".into());
                 }
